@@ -10,7 +10,10 @@ import (
 	spb "github.com/openconfig/gribi/v1/proto/service"
 )
 
-func init() { cmds["c05"] = runC05 }
+func init() {
+	cmds["c05"] = runC05
+	cmds["c05conc"] = drv.ElectConcCmd("c05conc", "C05")
+}
 
 // EStep is one step of an election script.
 type EStep struct {
